@@ -2,5 +2,6 @@ import SA.Model.TlsConfig
 namespace SA.Drv.TlsConfig
 /-- component keyword → handler over the remaining tokens of the line -/
 def entries : List (String × (List String → String)) :=
-  [("tlscfg", SA.TlsConfig.handleTlscfg), ("authmatrix", SA.TlsConfig.handleAuthmatrix)]
+  [("tlscfg", SA.TlsConfig.handleTlscfg), ("authmatrix", SA.TlsConfig.handleAuthmatrix),
+   ("tlshist", SA.TlsConfig.handleTlshist)]
 end SA.Drv.TlsConfig
